@@ -180,7 +180,9 @@ func init() {
 		},
 		"vhEnvWait": func(e *Exec, _ *Frame, _ *ssa.Function, _ []Value) Value { return nil },
 		"vhEnvDone": func(e *Exec, _ *Frame, _ *ssa.Function, args []Value) Value {
-			e.envTrace = append(e.envTrace, int64(e.ConcInt(args[0].(*Term))))
+			k := int64(e.ConcInt(args[0].(*Term)))
+			e.envTrace = append(e.envTrace, k)
+			e.strace = append(e.strace, TraceEv{Role: "env", Code: k})
 			return nil
 		},
 		"vhSkipNative": func(e *Exec, _ *Frame, _ *ssa.Function, _ []Value) Value { return nil },
